@@ -198,3 +198,18 @@ Definition CFConfigMoves___gt__ (self_q_vertex : nat) (self_graph_vertices : lis
   PyOk ((negb t2_)) end
   else
   PyOk (false) end.
+
+(* chipfiring/CFConfig.py :: CFConfigMoves.get_q_vertex_name   reads ['self_q_vertex'], writes [] *)
+Definition CFConfigMoves_get_q_vertex_name (self_q_vertex : nat) : nat :=
+  (self_q_vertex).
+
+(* chipfiring/CFConfig.py :: CFConfigMoves.get_v_tilde_names   reads ['self_v_tilde_vertices'], writes [] *)
+Definition CFConfigMoves_get_v_tilde_names (self_v_tilde_vertices : list nat) : list nat :=
+  (self_v_tilde_vertices).
+
+(* chipfiring/CFConfig.py :: CFConfigMoves.get_config_degrees_as_dict   reads ['self_v_tilde_vertices', 'self_q_vertex', 'self_divisor_degrees'], writes [], may raise *)
+Definition CFConfigMoves_get_config_degrees_as_dict (self_v_tilde_vertices : list nat) (self_q_vertex : nat) (self_divisor_degrees : dictZ) (set_order : list nat -> list nat) : pyres (unit) dictZ :=
+  match (fold_left (fun acc_ v => match acc_ with PyExn e_ => PyExn e_ | PyOk d_ =>
+  match CFConfigMoves_get_degree_at self_q_vertex self_v_tilde_vertices self_divisor_degrees v with PyExn _ => PyExn tt | PyOk t1_ =>
+  PyOk (d_set v t1_ d_) end end) (set_order self_v_tilde_vertices) (PyOk (@nil (nat * Z)))) with PyExn _ => PyExn tt | PyOk t2_ =>
+  PyOk (t2_) end.
